@@ -44,10 +44,19 @@ def P_entry(c, fine, coarse, nodes, co):
     return w
 
 
+# fine widths whose PAIRS add up to the same coarse widths in two directions although the pairs are split differently
+PAIRS = {'xy': ([1.0, 3.0, 2.0, 2.0], [2.0, 2.0, 1.0, 3.0], [1.5, 0.5, 1.0, 2.0]), 'xz': ([1.0, 3.0, 2.0, 2.0], [0.7, 1.3, 2.0, 0.5], [2.0, 2.0, 1.0, 3.0]),
+         'yz': ([0.7, 1.3, 2.0, 0.5], [3.0, 1.0, 0.5, 3.5], [1.0, 3.0, 2.0, 2.0])}
+
+
 def make(shape, seed, cplx=True, case='isotropic', mu=False, far=False):
     import emg3d
     rng = np.random.default_rng(seed)
-    h = [rng.uniform(0.5, 2.0, n) for n in shape]
+    if isinstance(shape, str):          # one of the PAIRS grids
+        h = [np.array(v) for v in PAIRS[shape]]
+        shape = tuple(len(v) for v in h)
+    else:
+        h = [rng.uniform(0.5, 2.0, n) for n in shape]
     # far=True: a grid far away from the coordinate origin (coordinates 1e5 times the cell widths, as with projected map coordinates)
     origin = (2.0e5, -3.0e5, 1.5e5) if far else (rng.uniform(-5, 5), 1.0, -3.0)
     grid = emg3d.TensorMesh(h, origin=origin)
@@ -71,11 +80,12 @@ def check_restriction(patterns, shapes, seeds):
     cases = 0
     for sc in patterns:
         co = COARSENED[sc]
-        for shape in shapes:
+        for shape_ in list(shapes) + list(PAIRS):
             for seed in seeds:
                 for cplx in (True, False):
                     cases += 1
-                    grid, model, vm, sfield, res, rng = make(shape, seed, cplx)
+                    grid, model, vm, sfield, res, rng = make(shape_, seed, cplx)
+                    shape = tuple(grid.shape_cells)
                     cmodel, cs, ce = solver.restriction(vm, sfield, res, sc)
                     nodes = [grid.nodes_x, grid.nodes_y, grid.nodes_z]
                     cn = tuple(n // 2 if k else n for n, k in zip(shape, co))
